@@ -224,36 +224,35 @@ impl Deref for Packet {
 }
 
 fn packet(i: &[u8]) -> nom::IResult<&[u8], (u8, Packet)> {
-    nom::combinator::map(
-        nom::sequence::pair(
-            nom::multi::fold_many0(
-                fullpacket,
-                || (0, None),
-                |(seq, pkt): (u8, Option<Packet>), (nseq, p)| {
-                    let pkt = if let Some(mut pkt) = pkt {
-                        assert_eq!(nseq, seq.wrapping_add(1));
-                        pkt.extend(p);
-                        Some(pkt)
-                    } else {
-                        Some(Packet(Vec::from(p)))
-                    };
-                    (nseq, pkt)
-                },
-            ),
-            onepacket,
-        ),
-        move |(full, last)| {
-            let seq = last.0;
-            let pkt = if let Some(mut pkt) = full.1 {
-                assert_eq!(last.0, full.0.wrapping_add(1));
-                pkt.extend(last.1);
-                pkt
+    // any number of maximal fragments, then one shorter packet that ends the message
+    let (i, (full_seq, full, in_order)) = nom::multi::fold_many0(
+        fullpacket,
+        || (0u8, None, true),
+        |(seq, pkt, in_order): (u8, Option<Packet>, bool), (nseq, p)| {
+            if let Some(mut pkt) = pkt {
+                pkt.extend(p);
+                (nseq, Some(pkt), in_order && nseq == seq.wrapping_add(1))
             } else {
-                Packet(Vec::from(last.1))
-            };
-            (seq, pkt)
+                (nseq, Some(Packet(Vec::from(p))), in_order)
+            }
         },
-    )(i)
+    )(i)?;
+    let (i, last) = onepacket(i)?;
+    let seq = last.0;
+    let pkt = if let Some(mut pkt) = full {
+        if !in_order || last.0 != full_seq.wrapping_add(1) {
+            // the fragments of one message must carry consecutive sequence ids
+            return Err(nom::Err::Failure(nom::error::Error::new(
+                i,
+                nom::error::ErrorKind::Verify,
+            )));
+        }
+        pkt.extend(last.1);
+        pkt
+    } else {
+        Packet(Vec::from(last.1))
+    };
+    Ok((i, (seq, pkt)))
 }
 
 #[cfg(test)]
